@@ -1,7 +1,9 @@
 #!/bin/bash
+# usage: thorough_all.sh [seed]   -- thorough tier of every ready property (no evidence written)
+test -d .deps/atheris || /venv/bin/pip install -q --no-index --find-links /opt/veriftools/wheels --target .deps atheris
 for id in $(cat pbt/ready.txt); do
   s=$(date +%s)
-  out=$(timeout 7200 /venv/bin/python pbt/run.py $id --tier thorough --no-evidence 2>&1)
+  out=$(VERIF_SEED=${1:-1} timeout 7200 /venv/bin/python pbt/run.py $id --tier thorough --no-evidence 2>&1)
   code=$?
-  echo "$id exit=$code wall=$(( $(date +%s) - s ))s | $(echo "$out" | grep '^OK\|^VIOLATION\|^HARNESS' | head -3 | cut -c1-300)"
+  echo "$id seed=${1:-1} exit=$code wall=$(( $(date +%s) - s ))s | $(echo "$out" | grep '^OK\|^VIOLATION\|^HARNESS' | head -3 | cut -c1-400)"
 done
